@@ -483,8 +483,90 @@ func rulePrefixGuard(c *Ctx) {
 	}
 }
 
-// ruleNilVsEmpty: placeholder filled in below (round 15).
-func ruleNilVsEmpty(c *Ctx) {}
+// ruleNilVsEmpty (N-EMPTY): "no elements" is len(s) == 0.  A slice that is built by filtering in place - `kept :=
+// xs[:0]`, then append - is empty but NOT nil when nothing is kept (xs[:0] of a non-nil slice is non-nil), so a test
+// `s == nil` on such a value (also through the result of the module helper that filters) does not see the empty
+// case: the "nothing matched" branch is skipped (C10-m29: a glob whose only match is the including file itself no
+// longer gets its "no files match" error; the include is dropped without a diagnostic).
+func ruleNilVsEmpty(c *Ctx) {
+	if c.ranOnce("ruleNilVsEmpty") {
+		return
+	}
+	var fromZeroSlice func(v ssa.Value, depth int, seen map[ssa.Value]bool) bool
+	fromZeroSlice = func(v ssa.Value, depth int, seen map[ssa.Value]bool) bool {
+		if v == nil || seen[v] || depth > 6 {
+			return false
+		}
+		seen[v] = true
+		switch x := v.(type) {
+		case *ssa.Slice:
+			if k, ok := x.High.(*ssa.Const); ok && x.High != nil && k.Value != nil && k.Value.ExactString() == "0" {
+				if _, isSlice := x.X.Type().Underlying().(*types.Slice); isSlice {
+					return true
+				}
+			}
+			return false
+		case *ssa.Phi:
+			for _, e := range x.Edges {
+				if fromZeroSlice(e, depth+1, seen) {
+					return true
+				}
+			}
+		case *ssa.Call:
+			if bi, ok := x.Call.Value.(*ssa.Builtin); ok && bi.Name() == "append" && len(x.Call.Args) > 0 {
+				return fromZeroSlice(x.Call.Args[0], depth+1, seen)
+			}
+			if cal := x.Call.StaticCallee(); cal != nil && inModule(cal) && cal.Blocks != nil && cal.Signature.Results().Len() == 1 {
+				for _, b := range cal.Blocks {
+					if r, ok := lastInstr(b).(*ssa.Return); ok && len(r.Results) == 1 {
+						if fromZeroSlice(r.Results[0], depth+1, seen) {
+							return true
+						}
+					}
+				}
+			}
+		case *ssa.UnOp:
+			// a local that lives in a cell
+			if al, ok := x.X.(*ssa.Alloc); ok && x.Op == token.MUL && al.Referrers() != nil {
+				for _, r := range *al.Referrers() {
+					if st, ok := r.(*ssa.Store); ok && st.Addr == ssa.Value(al) && fromZeroSlice(st.Val, depth+1, seen) {
+						return true
+					}
+				}
+			}
+		}
+		return false
+	}
+	n, judged := 0, 0
+	for _, f := range c.P.ModuleFuncs() {
+		for _, b := range f.Blocks {
+			for _, ins := range b.Instrs {
+				bo, ok := ins.(*ssa.BinOp)
+				if !ok || (bo.Op != token.EQL && bo.Op != token.NEQ) {
+					continue
+				}
+				for _, pr := range [][2]ssa.Value{{bo.X, bo.Y}, {bo.Y, bo.X}} {
+					k, isK := pr[1].(*ssa.Const)
+					if !isK || !k.IsNil() {
+						continue
+					}
+					if _, isSlice := pr[0].Type().Underlying().(*types.Slice); !isSlice {
+						continue
+					}
+					judged++
+					if fromZeroSlice(pr[0], 0, map[ssa.Value]bool{}) {
+						n++
+						c.finding("N-EMPTY", funcName(f), "a slice filtered in place is compared with nil", bo.Pos(),
+							"the slice compared with nil is built by an in-place filter (xs[:0] and append): when nothing is kept it is empty but not nil, so the test does not see the empty case - the branch for 'no element' (no file matches the pattern: an error on the include directive) is skipped and the directive is dropped without a diagnostic")
+					}
+				}
+			}
+		}
+	}
+	if n == 0 {
+		c.ok("N-EMPTY", "module", "no nil test on a slice filtered in place", token.NoPos, "nil tests of slices judged: "+itoa(judged))
+	}
+}
 
 // ruleFormatterAssertionIndependent (T14-INDEP): what the formatter writes behind the account - amount, cost, balance
 // assertion - is three independent optional parts.  A read of Posting.BalanceAssertion (and of Posting.Cost) in
